@@ -162,6 +162,8 @@ class Judge:
         elif name == "parent" and self.mounted:
             if self.cwd: self.cwd.pop()
         elif name == "toroot": self.cwd = []
+        elif name == "usedirc":
+            self.usedirc = (a[1] == "1")
         elif name == "list" and self.mounted:
             rec = a[3] == "1"
             got = []
@@ -182,7 +184,7 @@ class Judge:
                 return sorted((d, t, n, (None if False else s), acc, c) for (d, t, n, s, acc, c) in lst)
             g = sorted(got); w = sorted(want)
             if len(g) != len(w) or any(x[:3] != y[:3] or x[4:] != y[4:] for x, y in zip(g, w)):
-                bad.append(f"listing differs from the tree model: got {[(x[0], x[2]) for x in g][:8]} want {[(x[0], x[2]) for x in w][:8]}")
+                bad.append(f"{'cached listing (directory cache)' if getattr(self, 'usedirc', False) and self.dirc else 'listing'} differs from the tree model: got {[(x[0], x[2]) for x in g][:8]} want {[(x[0], x[2]) for x in w][:8]}")
             elif not dirty:
                 for x, y in zip(g, w):
                     if x[3] != y[3]: bad.append(f"listing: size of {x[2]!r} is {x[3]}, model says {y[3]}")
